@@ -23,14 +23,18 @@ def modify(rng, seq, fmt):
         out.append(c)
         r = rng.random()
         if c == "M" and r < 0.5:
-            out.append({"MaxQuant": rng.choice(["(ox)", "(Oxidation (M))"]), "Perc": "[16]", "Mokapot": "[UNIMOD:35]",
-                        "FragPipe": "[147]", "Sage": "[+15.9949]", "DIA-NN": "(UniMod:35)"}[fmt])
+            # every notation the search engines behind a format write: integer masses, decimal mass shifts (with '.', '+'), UNIMOD ids
+            out.append({"MaxQuant": rng.choice(["(ox)", "(Oxidation (M))"]), "Perc": rng.choice(["[16]", "[15.9949]", "[+15.995]", "[UNIMOD:35]"]),
+                        "Mokapot": rng.choice(["[UNIMOD:35]", "[15.9949]", "[+16]"]), "FragPipe": rng.choice(["[147]", "[147.0354]"]),
+                        "Sage": "[+15.9949]", "DIA-NN": "(UniMod:35)"}[fmt])
         elif c == "C" and r < 0.5:
-            out.append({"MaxQuant": "(ca)", "Perc": "[57]", "Mokapot": "[UNIMOD:4]", "FragPipe": "[160]", "Sage": "[+57.0215]",
-                        "DIA-NN": "(UniMod:4)"}[fmt])
+            out.append({"MaxQuant": "(ca)", "Perc": rng.choice(["[57]", "[57.0215]"]), "Mokapot": rng.choice(["[UNIMOD:4]", "[57.0215]"]),
+                        "FragPipe": "[160]", "Sage": "[+57.0215]", "DIA-NN": "(UniMod:4)"}[fmt])
     s = "".join(out)
     if fmt == "MaxQuant" and rng.random() < 0.2:
         s = "(ac)" + s
+    if fmt in ("Perc", "Mokapot", "Sage") and rng.random() < 0.15:
+        s = rng.choice(["[42.0106]", "[+42.0106]-", "[UNIMOD:1]"]) + s if fmt != "Perc" else rng.choice(["[42.0106]", "[42]"]) + s
     return s
 
 
@@ -294,10 +298,11 @@ class StripSuite(Suite):
     case_type = "str * str"
     chk = "chk10m"
     deterministic = True
-    rule = "peptides with one-level (..)/[..] modifications, two-level parentheses, unbalanced brackets, flanking characters; non-trivial = nested parentheses"
+    rule = ("peptides with one-level (..)/[..] modifications, two-level parentheses, ProForma terminal modifications ([m]- / -[m]), unbalanced "
+            "brackets, hyphens and flanking characters anywhere; non-trivial = nested parentheses")
 
     def gen(self, rng, tier):
-        alpha = "ACK()[]M"
+        alpha = "ACK()[]M-"
         for _ in range(core.tier_n(tier, 800, 10000)):
             if rng.random() < 0.5:
                 s = "".join(rng.choice(alpha) for _ in range(rng.randint(0, 12)))
@@ -305,6 +310,8 @@ class StripSuite(Suite):
                 s = modify(rng, rng.choice(SEQS), rng.choice(list(FMT)))
                 if rng.random() < 0.3:
                     s = s.replace("K", "K(TMTPro (K))")
+                if rng.random() < 0.2:
+                    s = s + rng.choice(["-[UNIMOD:737]", "-[+229.1629]"])       # ProForma C-terminal modification
             yield {"s": s}
 
     def impl(self, case):
